@@ -121,6 +121,8 @@ type (
 	pendingMessage struct {
 		message *common.MessagePublication
 		height  uint64
+		// lookupFailed is set once a receipt lookup for this message failed transiently.
+		lookupFailed bool
 	}
 )
 
@@ -432,8 +434,11 @@ func (w *Watcher) Run(ctx context.Context) error {
 						expectedConfirmations = uint64(pLock.message.ConsistencyLevel)
 					}
 
-					// Transaction was dropped and never picked up again
-					if pLock.height+expectedConfirmations+w.maxWaitConfirmations <= blockNumberU {
+					// Transaction was dropped and never picked up again. Only a message whose receipt lookup
+					// has failed before can be abandoned: when the observed head jumps by more than the
+					// abandonment window at once (finality catching up), the message has never been looked up
+					// yet and must be checked below instead of being discarded.
+					if pLock.lookupFailed && pLock.height+expectedConfirmations+w.maxWaitConfirmations <= blockNumberU {
 						logger.Info("observation timed out",
 							zap.Stringer("tx", pLock.message.TxHash),
 							zap.Stringer("blockhash", key.BlockHash),
@@ -502,6 +507,7 @@ func (w *Watcher) Run(ctx context.Context) error {
 
 						// Any error other than "not found" is likely transient - we retry next block.
 						if err != nil {
+							pLock.lookupFailed = true
 							logger.Warn("transaction could not be fetched",
 								zap.Stringer("tx", pLock.message.TxHash),
 								zap.Stringer("blockhash", key.BlockHash),
